@@ -513,7 +513,7 @@ func runC07(r *Run) {
 	forbidden := map[string]string{
 		fnCSSet: "writes the committed tree", fnCSDel: "writes the committed tree", fnCSCommit: "commits the tree",
 		fnStateWr: "flushes a block cache into the tree", fnStateCmt: "commits a state",
-		"(*vm.EVMTransaction).Apply":      "runs the EVM state transition (the shared EVM object cache would be mutated by a mempool check)",
+		"(*vm.EVMTransaction).Apply":         "runs the EVM state transition (the shared EVM object cache would be mutated by a mempool check)",
 		"(*vm.StateTransition).TransitionDb": "runs the EVM state transition",
 	}
 	nfound := 0
